@@ -709,3 +709,113 @@ E("EQ-iter-instant-local", KS,
         let at = nonce.instant;
         let iter = self.tree.iter(at, None);
         crate::iter::Iter::new(nonce, iter)""")
+
+# ======================================================================== C07
+OWT = "src/tx/optimistic/write_tx.rs"
+ORACLE = "src/tx/optimistic/oracle.rs"
+B("C07-size_of-untracked", "C07", "C07:R-C07.1:<tx::optimistic::write_tx::WriteTransaction as readable::Readable>::size_of", OWT,
+  """        let size = self.inner.size_of(keyspace, key.as_ref())?;
+
+        self.cm.mark_read(keyspace.id, key.as_ref().into());
+
+        Ok(size)""",
+  """        self.inner.size_of(keyspace, key)""")
+B("C07-first-untracked", "C07", "C07:R-C07.1:<tx::optimistic::write_tx::WriteTransaction as readable::Readable>::first_key_value", OWT,
+  """        self.iter(&keyspace).next()""", """        self.inner.first_key_value(keyspace)""")
+B("C07-get-tracks-only-hits", "C07", "C07:R-C07.1:<tx::optimistic::write_tx::WriteTransaction as readable::Readable>::get", OWT,
+  """        let res = self.inner.get(keyspace, key.as_ref())?;
+
+        self.cm.mark_read(keyspace.id, key.as_ref().into());
+
+        Ok(res)""",
+  """        let res = self.inner.get(keyspace, key.as_ref())?;
+
+        if res.is_some() {
+            self.cm.mark_read(keyspace.id, key.as_ref().into());
+        }
+
+        Ok(res)""")
+B("C07-contains-wrong-key", "C07", "C07:R-C07.1:<tx::optimistic::write_tx::WriteTransaction as readable::Readable>::contains_key:recorded-operands", OWT,
+  """        let contains = self.inner.contains_key(keyspace, key.as_ref())?;
+
+        self.cm.mark_read(keyspace.id, key.as_ref().into());""",
+  """        let contains = self.inner.contains_key(keyspace, key.as_ref())?;
+
+        self.cm.mark_read(keyspace.id, Slice::from("k"));""")
+B("C07-remove-unrecorded", "C07", "C07:R-C07.2:tx::optimistic::write_tx::WriteTransaction::remove", OWT,
+  """        self.inner.remove(keyspace, key.clone());
+        self.cm.mark_conflict(keyspace.id, key);""",
+  """        self.inner.remove(keyspace, key);""")
+B("C07-window-plus-two", "C07", "C07:R-C07.3:tx::optimistic::oracle::Oracle::with_commit:scan-window", ORACLE,
+  ".range((instant + 1)..)", ".range((instant + 2)..)")
+B("C07-window-from-instant", "C07", "C07:R-C07.3:tx::optimistic::oracle::Oracle::with_commit:scan-window", ORACLE,
+  ".range((instant + 1)..)", ".range((instant + 1)..=u64::MAX - 1)")
+B("C07-commit-despite-conflict", "C07", "C07:R-C07.3:tx::optimistic::oracle::Oracle::with_commit:commit-only-if-not-conflicted", ORACLE,
+  """        if conflicted {
+            return Ok(CommitOutcome::Conflicted);
+        }
+
+        if let Err(e) = f() {
+            return Ok(CommitOutcome::Aborted(e));
+        }""",
+  """        if let Err(e) = f() {
+            return Ok(CommitOutcome::Aborted(e));
+        }
+
+        if conflicted {
+            return Ok(CommitOutcome::Conflicted);
+        }""")
+B("C07-register-stale-ts", "C07", "C07:R-C07.3:tx::optimistic::oracle::Oracle::with_commit:register-after-successful-commit", ORACLE,
+  """        if let Err(e) = f() {
+            return Ok(CommitOutcome::Aborted(e));
+        }
+
+        committed_txns.insert(self.snapshot_tracker.get(), conflict_checker);""",
+  """        let ts = self.snapshot_tracker.get();
+
+        if let Err(e) = f() {
+            return Ok(CommitOutcome::Aborted(e));
+        }
+
+        committed_txns.insert(ts, conflict_checker);""")
+B("C07-snapshot-outside-lock", "C07", "C07:R-C07.4", "src/tx/optimistic/mod.rs",
+  """            let _guard = self.oracle.write_serialize_lock()?;
+
+            self.inner.supervisor.snapshot_tracker.open()""",
+  """            drop(self.oracle.write_serialize_lock()?);
+
+            self.inner.supervisor.snapshot_tracker.open()""")
+B("C07-helper-bypasses-oracle", "C07", "C07:R-C07.5:tx::optimistic::keyspace::OptimisticTxKeyspace::remove", "src/tx/optimistic/keyspace.rs",
+  """        let mut tx = self.db.write_tx()?;
+        tx.remove(self.inner(), key);
+
+        #[expect(
+            clippy::expect_used,
+            clippy::missing_panics_doc,
+            reason = "blind remove should not conflict ever"
+        )]
+        tx.commit()?.expect("blind remove should not conflict ever");
+
+        Ok(())""",
+  """        self.inner.remove(key)""")
+B("C07-conflict-arm-hole", "C07", "C07:R-C07.6:tx::optimistic::conflict_manager::ConflictManager::has_conflict:arm-All", "src/tx/optimistic/conflict_manager.rs",
+  """                        Read::All => {
+                            if !other_conflict_keys.is_empty() {
+                                return true;
+                            }
+                        }""",
+  """                        Read::All => {}""")
+B("C07-conflict-self-vs-self", "C07", "C07:R-C07.6:tx::optimistic::conflict_manager::ConflictManager::has_conflict:own-reads", "src/tx/optimistic/conflict_manager.rs",
+  """        let conflict_keys_lock = other.conflict_keys.lock().expect("lock is poisoned");""",
+  """        let _ = other;
+        let conflict_keys_lock = self.conflict_keys.lock().expect("lock is poisoned");""")
+E("EQ-ssi-get-mark-first", OWT,
+  """        let res = self.inner.get(keyspace, key.as_ref())?;
+
+        self.cm.mark_read(keyspace.id, key.as_ref().into());
+
+        Ok(res)""",
+  """        let k: Slice = key.as_ref().into();
+        self.cm.mark_read(keyspace.id, k);
+
+        self.inner.get(keyspace, key.as_ref())""")
